@@ -6,7 +6,10 @@ ROOT = os.path.dirname(os.path.dirname(os.path.abspath(__file__)))
 
 NOTE_COMMON = ("Trusted base: the instrumenter's rewrites are semantics preserving (each seam only produces "
                "behaviours the Go specification allows; the repository's own suite passes on the instrumented copy in "
-               "setup_cmd); protobuf/protojson/yaml runtimes; sampling, not enumeration.")
+               "setup_cmd); protobuf/protojson/yaml runtimes; sampling, not enumeration. Seams that only a changed tree reaches "
+               "(discrete-event clock with timers, sleeps and context deadlines; cooperative sync.Cond; simulated sync.Pool; "
+               "tape-ordered select; weak-hash mode for 32/64-bit non-cryptographic hashes in half of the worker processes) are "
+               "described in DESIGN.md 13.12-13.13; on the pinned tree they have nothing to act on.")
 
 CHECKS = {
     "C04": dict(engine="wgsim", design="§7.3, §8 C04",
@@ -95,7 +98,7 @@ def main():
         "setup_cmd": "./setup.sh",
         "hooks": {
             "guard": "verifsim (no hook is committed to /repo: every check copies /repo's working tree to a scratch directory and a go/ast instrumenter splices the seams into the copy; see DESIGN.md §3)",
-            "enable": "automatic: ./check copies /repo/pkg/go, runs bin/instrument on the copy and builds the worker with -tags safe against it",
+            "enable": "automatic: ./check copies /repo/pkg/go, runs bin/instrument on the copy (map ranges, ulid/time/env/GOMAXPROCS reads, go statements, sync and channel operations, select, timers and context deadlines, sync.Pool/Cond/Map, non-cryptographic hashes, yield points) and builds the worker with -tags safe against it",
             "baseline_off_cmd": "cd /repo/pkg/go && GOFLAGS=-mod=mod GOPROXY=off GOSUMDB=off GOTOOLCHAIN=local go test -json -vet=off -count=1 -timeout 25m ./...",
             "source_commits": [],
             "add_only": True,
